@@ -88,7 +88,7 @@ func runOne(w *sched.W, op cm.OpDef, st setting, maxChunk int, stall int, b sche
 				})
 			}
 			if st.override == 0 && stall >= 0 {
-				time.AfterFunc(3*tConn, func() {
+				time.AfterFunc(3*tConn+u/10, func() {
 					o.blockedAtProbe = !o.returned
 					c.Tr.Release()
 					e.Poke()
@@ -321,7 +321,9 @@ func resumeScenario(op cm.OpDef, st setting, b sched.Bounds) sched.Scenario {
 				if w.Expired() {
 					return
 				}
-				resumeAt = T + time.Duration(q)*u/4
+				// + u/10: never at the same virtual instant as a library timer (all of which sit on
+				// the u/2 grid), so that the order of same-instant timers cannot matter
+				resumeAt = T + time.Duration(q)*u/4 + u/10
 				w.Extra("resume_points", 1)
 				w.SetCase(fmt.Sprintf("stall=%d L=%d Lmin=%d resume=%d", k, L, Lmin, int64(resumeAt)))
 				runOne(w, op, st, 0, k, b)
